@@ -73,9 +73,11 @@ impl NodeDrive {
     }
     pub fn storage_data_disk(db: &Database, reclame_space: bool, db_name: &String) -> u32 {
         let keys_to_update = get_keys_to_update(db, reclame_space);
-        let mut keys_file = get_key_file_append_mode(&db_name, reclame_space);
+        // The values file is created before the keys file: the loader opens the values file of
+        // every keys file it finds, a crash between the two creations must not leave keys alone
         let (mut values_file, current_value_file_size) =
             get_values_file_append_mode(&db_name, reclame_space);
+        let mut keys_file = get_key_file_append_mode(&db_name, reclame_space);
         // To inplace update
         let (mut keys_file_write, current_key_file_size) = get_key_write_mode(&db_name);
         log::debug!("current_key_file_size: {}", current_key_file_size);
@@ -334,17 +336,25 @@ fn write_key(keys_file: &mut BufWriter<File>, key: &String, value: &Value, value
 }
 
 fn write_metadata_file(db_name: &String, db: &Database) {
-    let mut meta_file = OpenOptions::new()
-        .create(true)
-        .write(true)
-        .open(meta_file_name_from_db_name(db_name.to_string()))
-        .unwrap();
-    //8 bytes
-    meta_file.write(&db.metadata.id.to_le_bytes()).unwrap();
-    //4 bytes
-    meta_file
-        .write(&db.metadata.consensus_strategy.to_le_bytes())
-        .unwrap();
+    // Written to a temporary file and renamed: a crash never leaves an empty or half written
+    // metadata file (it would be read back as id 0, the id of the admin database)
+    let meta_file_name = meta_file_name_from_db_name(db_name.to_string());
+    let tmp_meta_file_name = format!("{}.tmp", meta_file_name);
+    {
+        let mut meta_file = OpenOptions::new()
+            .create(true)
+            .write(true)
+            .truncate(true)
+            .open(&tmp_meta_file_name)
+            .unwrap();
+        let mut record = [0; U64_SIZE + U32_SIZE];
+        //8 bytes
+        record[..U64_SIZE].copy_from_slice(&db.metadata.id.to_le_bytes());
+        //4 bytes
+        record[U64_SIZE..].copy_from_slice(&db.metadata.consensus_strategy.to_le_bytes());
+        meta_file.write(&record).unwrap();
+    }
+    fs::rename(&tmp_meta_file_name, &meta_file_name).unwrap();
 }
 
 pub fn meta_file_name_from_db_name(db_name: String) -> String {
